@@ -11,6 +11,9 @@ pub mod tools;
 #[cfg(feature = "clap")]
 pub mod cmd_utils;
 
+#[cfg(jubako_verif)]
+pub mod verif;
+
 #[doc(hidden)]
 pub use const_format::concatcp;
 
